@@ -30,7 +30,8 @@ def hexOf (n : Nat) : String :=
     | k + 1, n, acc => go k (n / 16) (digits[n % 16]! :: acc)
   String.ofList (go 16 n [])
 
-def showBits (x : Float) : String := hexOf x.toBits.toNat
+/-- NaN sign/payload is canonicalised on the wire (see `canon_nan` in the harness) -/
+def showBits (x : Float) : String := if x.isNaN then "7ff8000000000000" else hexOf x.toBits.toNat
 
 structure St where
   tbl : Table Float := []
@@ -102,8 +103,66 @@ def unop (st : St) (op : String) (a : Quantity Float) : String :=
   | "canon" => showQ st ⟨a.value, canon st.tbl a.unit, true⟩
   | _ => "bad-op"
 
+/-! S-expressions for `eval`: `(add A B)`, `(sub A B)`, `(mul A B)`, `(div A B)`, `(neg A)`,
+`(pow A num/den)`, `(num BITS)`, `(unit name:m3:1/1)` -/
+
+def tokenizeS (s : String) : List String :=
+  let rec go : List Char → List Char → List String → List String
+    | [], cur, acc => (if cur.isEmpty then acc else String.ofList cur.reverse :: acc).reverse
+    | c :: cs, cur, acc =>
+      let flush := if cur.isEmpty then acc else String.ofList cur.reverse :: acc
+      if c == '(' then go cs [] ("(" :: flush)
+      else if c == ')' then go cs [] (")" :: flush)
+      else if c == ' ' then go cs [] flush
+      else go cs (c :: cur) acc
+  go s.toList [] []
+
+def parseRat (s : String) : Option Rat :=
+  match s.splitOn "/" with
+  | [n, d] => do
+    let n ← parseInt n
+    let d ← d.toNat?
+    if d == 0 then none else pure (mkRat n d)
+  | _ => none
+
+/-- recursive descent with fuel; returns the expression and the remaining tokens -/
+def parseE (st : St) : Nat → List String → Option (QExpr Float × List String)
+  | 0, _ => none
+  | fuel + 1, toks =>
+    match toks with
+    | "(" :: "num" :: b :: ")" :: rest => (parseBits b).map (fun v => (.num v, rest))
+    | "(" :: "unit" :: f :: ")" :: rest => (parseFactor st f).map (fun f => (.unit f, rest))
+    | "(" :: "neg" :: rest => do
+      let (a, rest) ← parseE st fuel rest
+      match rest with
+      | ")" :: rest => pure (.neg a, rest)
+      | _ => none
+    | "(" :: "pow" :: rest => do
+      let (a, rest) ← parseE st fuel rest
+      match rest with
+      | r :: ")" :: rest => (parseRat r).map (fun r => (.pow a r, rest))
+      | _ => none
+    | "(" :: op :: rest => do
+      let (a, rest) ← parseE st fuel rest
+      let (b, rest) ← parseE st fuel rest
+      match rest with
+      | ")" :: rest =>
+        match op with
+        | "add" => pure (.add a b, rest)
+        | "sub" => pure (.sub a b, rest)
+        | "mul" => pure (.mul a b, rest)
+        | "div" => pure (.div a b, rest)
+        | _ => none
+      | _ => none
+    | _ => none
+
 def step (st : St) (line : String) : St × String :=
   match (line.splitOn " ").filter (· ≠ "") with
+  | "eval" :: _ =>
+    let toks := tokenizeS ((line.drop 5).toString)
+    match parseE st (toks.length + 1) toks with
+    | some (e, []) => (st, showRes st (evalQ st.tbl e))
+    | _ => (st, "bad-request")
   | ["tbl-reset"] => ({ st with tbl := [] }, "ok")
   | ["u", name, isBase, bits, unit] =>
     match parseBits bits, parseUnit st unit with
